@@ -318,7 +318,23 @@ func (g ghostType) Underlying() types.Type { return g }
 func (g ghostType) String() string         { return "ghost " + g.S.String() }
 
 func (e *SpecEnv) resolveGhostSort(g *GhostVar) (*Sort, error) {
-	return e.sortOfTypeString(g.Type)
+	srt, err := e.sortOfTypeString(g.Type)
+	if err == nil {
+		return srt, nil
+	}
+	// the type may be spelled relative to the package that declares the ghost variable
+	path := g.Pkg
+	if strings.HasPrefix(path, "./") || path == "." {
+		path = pkgDirToPath(path)
+	}
+	if sp := e.vc.prog.ByPath[path]; sp != nil && sp.Pkg != nil && sp.Pkg != e.pkg {
+		de := *e
+		de.pkg = sp.Pkg
+		if s2, err2 := de.sortOfTypeString(g.Type); err2 == nil {
+			return s2, nil
+		}
+	}
+	return nil, err
 }
 
 func (e *SpecEnv) sortOfTypeString(s string) (*Sort, error) {
